@@ -15,6 +15,25 @@ statement.
     same process; inputs that are not documented as in-place are not modified.
 
 Every case is a JSON-serialisable dict; run_case(case) reproduces it alone.
+
+Classes (cls) of failing inputs of the UNCHANGED library found by these rings
+(each generated in a branch of its own, at most 3 inputs recorded per class,
+the run always continues):
+  sus-arange-pointer-count            numpy.arange(offset, tot, dist) has k-1 / k+1 entries
+  sus-offset-zero-double-count        drawn offset exactly 0.0 AND all running sums / pointers exact in float: with the
+                                      `<` walk pointer 0 and pointer cumsum[0] both hit element 0 (repaired by the
+                                      `<=` walk; kept as a regression guard)
+  sus-pointer-rounds-across-boundary  a real-arithmetic pointer coincides with a cumulative boundary; float rounding
+                                      moves it to the wrong side (count outside floor/ceil)
+  sus-pointer-past-cumsum             last pointer > sequential cumsum[-1] (< pairwise p.sum()): IndexError
+  sus-zero-draws-division             size 0 / (0,) / (2,0): division by k == 0
+  tiled-choice-scalar-shape-float-prod size=(): numpy.prod(()) is the float 1.0
+  axis-shuffle-all-axes-scalar-slice  every axis listed (e.g. 1-d array, axis 0): shuffle of a numpy scalar
+  axis-shuffle-negative-axis-ignored  negative axis numbers are silently treated as 'no axis'
+  outcross-noncontiguous-ravel-copy   ravel() of a non-C-contiguous table is a copy: nothing is exchanged
+Any other cls (sus-count-not-floor-or-ceil, sus-zero-weight-selected, sus-shape,
+sus-exception, tiled-unbalanced, axis-shuffle-values-left-slice,
+outcross-not-local-optimum, ...-not-reproducible, ...) is a new violation.
 """
 import itertools
 import signal
@@ -125,7 +144,7 @@ def _key(case):
     return repr(sorted(case.items(), key=str))
 
 
-def _catching(fn, case, seconds=20):
+def _catching(fn, case, seconds=10):
     try:
         with _guard(seconds), warnings.catch_warnings(), numpy.errstate(all="ignore"):
             warnings.simplefilter("ignore")
@@ -198,33 +217,67 @@ def _sus_near_boundary(case, k):
     return near, top
 
 
-def _sus_input_class(case, p, k, exc=None):
-    """class of the INPUT for the float-edge situations of the unchanged
-    library; only diagnostic (computed after a failure), never part of the oracle"""
+def _sus_exact_ladder(case, k):
+    """True iff float arithmetic is exact for this weight vector and k: every
+    running sum of the weights taken in descending order, the total p.sum(),
+    tot/k and every pointer i*(tot/k), i < k, equal their real-arithmetic values.
+    Diagnostic only."""
+    p = numpy.array(case["p"], dtype=case.get("pdtype", "float64"))
+    w = sorted(p.tolist(), reverse=True)
+    exact, acc = Fraction(0), (0 if p.dtype.kind in "iu" else 0.0)
+    for x in w:
+        exact += Fraction(x)
+        acc = acc + x
+        if Fraction(acc) != exact:
+            return False
+    with numpy.errstate(all="ignore"):
+        tot = p.sum()
+        if Fraction(tot.item()) != exact:
+            return False
+        dist = tot / k
+        if Fraction(float(dist)) != exact / k:
+            return False
+        for i in range(k):
+            if Fraction(float(dist * i)) != exact * i / k:
+                return False
+    return True
+
+
+def _sus_input_class(case, p, k, exc=None, clause="counts"):
+    """class of the failing INPUT for the float-edge situations of the library;
+    only diagnostic (computed after a failure), never part of the oracle.
+    Crashes / wrong number of draws and wrong counts are classified separately,
+    so that repairing one defect does not hide the others."""
     spec = case["rng"]
     if k == 0:
         return "sus-zero-draws-division"
     if spec["kind"] != "scripted":
         return None
     j = int(spec["j"])
-    with numpy.errstate(all="ignore"):
-        tot = p.sum()
-        dist = tot / k
-        offset = 0.0 + (dist - 0.0) * (j / TWO53)
-        try:
-            npt = len(numpy.arange(offset, tot, dist))
-        except Exception:
-            npt = -1
-    if npt != k:
-        return "sus-arange-pointer-count"
     near, top = _sus_near_boundary(case, k)
-    if exc is not None:
+    if exc is not None or clause == "shape":
+        with numpy.errstate(all="ignore"):
+            tot = p.sum()
+            dist = tot / k
+            offset = 0.0 + (dist - 0.0) * (j / TWO53)
+            try:
+                npt = len(numpy.arange(offset, tot, dist))
+            except Exception:
+                npt = -1
+        if npt != k:
+            return "sus-arange-pointer-count"
         if isinstance(exc, IndexError) and top:
             return "sus-pointer-past-cumsum"
         return None
-    if j == 0:
+    if clause != "counts":
+        return None
+    if j == 0 and _sus_exact_ladder(case, k):
+        # the tie between pointer i*dist and a cumulative boundary is exact in float
+        # arithmetic: only the interval convention (< versus <=) decides
         return "sus-offset-zero-double-count"
     if near:
+        # a pointer lies on a boundary in real arithmetic and float rounding of the
+        # running sum / pointer ladder decides its side
         return "sus-pointer-rounds-across-boundary"
     return None
 
@@ -266,24 +319,24 @@ def run_sus(case):
 
     out = stochastic_universal_sampling(a, p, size, _mk_rng(case["rng"]))
 
-    def cls(generic):
-        icls = _sus_input_class(case, p0, k)
+    def cls(generic, clause):
+        icls = _sus_input_class(case, p0, k, clause=clause)
         return icls if icls is not None else generic
 
     # requested number of draws in the requested shape
     got_shape = tuple(numpy.shape(out))
     if got_shape != tuple(shape):
-        return True, "output shape %r, requested %r" % (got_shape, shape), cls("sus-shape"), "shape"
+        return True, "output shape %r, requested %r" % (got_shape, shape), cls("sus-shape", "shape"), "shape"
     flat = numpy.asarray(out).reshape(-1).tolist()
     if len(flat) != k:
-        return True, "%d draws, requested %d" % (len(flat), k), cls("sus-shape"), "shape"
+        return True, "%d draws, requested %d" % (len(flat), k), cls("sus-shape", "shape"), "shape"
     # every draw is an element of a
     labels = a0.tolist()
     pos = {v: i for i, v in enumerate(labels)}
     cnt = [0] * n
     for v in flat:
         if v not in pos:
-            return True, "drawn value %r is not an element of a" % (v,), cls("sus-foreign-value"), "membership"
+            return True, "drawn value %r is not an element of a" % (v,), cls("sus-foreign-value", "membership"), "membership"
         cnt[pos[v]] += 1
     # an element of zero weight is never selected (own class: the unchanged library
     # honours this clause even at its float-edge inputs)
@@ -301,17 +354,17 @@ def run_sus(case):
         if cnt[i] != lo and cnt[i] != hi:
             return (True, "element %d (weight %r) selected %d times; expected count %s = %.17g allows only %d or %d; "
                     "all counts %r" % (i, p0[i].item(), cnt[i], e, float(e), lo, hi, cnt),
-                    cls("sus-count-not-floor-or-ceil"), "counts")
+                    cls("sus-count-not-floor-or-ceil", "counts"), "counts")
     # inputs untouched
     if not (numpy.array_equal(p, p0) and numpy.array_equal(a, a0)):
-        return True, "the call modified its input arrays", cls("sus-input-mutated"), "inputs"
+        return True, "the call modified its input arrays", cls("sus-input-mutated", "inputs"), "inputs"
     # same generator state -> same result, repeatedly in one process
     for rep in range(2):
         again = stochastic_universal_sampling(a, p, size, _mk_rng(case["rng"]))
         if not _same_result(out, again):
             return (True, "call %d with the same generator state returned %r, first call %r"
                     % (rep + 2, numpy.asarray(again).tolist(), numpy.asarray(out).tolist()),
-                    cls("sus-not-reproducible"), "determinism")
+                    cls("sus-not-reproducible", "determinism"), "determinism")
     return False, "ok", "", ""
 
 
